@@ -34,6 +34,7 @@ type c08Replay struct {
 	B    *c08BCase `json:"binding,omitempty"`
 	C    *c08CCase `json:"auxpow,omitempty"`
 	D    *c08DCase `json:"twin,omitempty"`
+	K    *c08kCase `json:"real_kernels,omitempty"`
 }
 
 func runC08(c *vx.Ctx) {
@@ -43,6 +44,7 @@ func runC08(c *vx.Ctx) {
 	c.Assume("template signatures are made with three harness MuSig2 keys installed in params.MuSig2PublicKeys; a signature cannot be forged, so 'unchanged signature over a changed signed part' is modelled as invalid")
 	log.Global.SetOutput(io.Discard) // the package-global logger would otherwise write nodelogs/ under the cwd
 	c08Watchdog(150 * time.Second)
+	c08RunKernels(c)
 	var idx int64
 	for _, reg := range []string{"R0", "R2"} {
 		w, err := c08NewWorld(reg)
@@ -80,6 +82,9 @@ func replayC08(c *vx.Ctx, v vx.Violation) string {
 		return "bad replay: " + err.Error()
 	}
 	log.Global.SetOutput(io.Discard)
+	if r.K != nil {
+		return c08kReplay(*r.K, v.Key)
+	}
 	reg := "R2"
 	switch {
 	case r.A != nil:
